@@ -230,6 +230,42 @@ def rule_lock_discipline(ctx):
     # server: every use of the live simulation by the serialiser or a user callback lies between lock and unlock of data->mutex
     ts = cfront.load_tu('server.c')
     fs = ts.func('reb_server_start')
+    # handlers split off into their own functions are followed: their events are spliced in where they are called
+    split = {f_['name']: f_ for f_ in normal.with_new_helpers(ts, 'reb_server_start') if f_['name'] != 'reb_server_start'}
+
+    def events_of(node, depth=0):
+        evs = []
+        for e in walk(node):
+            if e.get('kind') == 'CallExpr':
+                nm = callee_name(e)
+                if nm in LOCK and ('mutex' in render(e) or nm != 'pthread_mutex_lock'):
+                    evs.append(('lock', line_of(e)))
+                elif nm in UNLOCK and ('mutex' in render(e) or nm != 'pthread_mutex_unlock'):
+                    evs.append(('unlock', line_of(e)))
+                elif nm is None and 'key_callback' in render(e['inner'][0]):
+                    evs.append(('callback', line_of(e)))
+                elif nm in split and depth < 3:
+                    evs.append(('enter:' + nm, line_of(e)))
+                elif nm and nm.startswith('reb_') and any(render(a) in ('r', 'data.r') for a in call_args(e)) and nm not in ('reb_simulation_warning', 'reb_simulation_error'):
+                    evs.append(('uses-r:' + nm, line_of(e)))
+            elif e.get('kind') == 'ReturnStmt' or e.get('kind') == 'ContinueStmt' or e.get('kind') == 'BreakStmt':
+                # only jumps that leave the handler matter; breaks inside the key switch are harmless (outside the region)
+                evs.append((e['kind'], line_of(e)))
+            elif e.get('kind') == 'GotoStmt':
+                evs.append(('goto', line_of(e)))
+            elif e.get('kind') == 'LabelStmt':
+                evs.append(('label', line_of(e)))
+        evs.sort(key=lambda ev: ev[1] or 0)
+        out = []
+        for ev in evs:
+            if ev[0].startswith('enter:'):
+                h = ev[0][6:]
+                out.append(ev)
+                out += events_of(cfront.body(split[h]), depth + 1)
+                out.append(('exit:' + h, ev[1]))
+            else:
+                out.append(ev)
+        return out
     for ifs in walk(cfront.body(fs)):
         if ifs.get('kind') != 'IfStmt':
             continue
@@ -237,36 +273,22 @@ def rule_lock_discipline(ctx):
         if 'uri' not in c or 'str' not in c:
             continue
         thenb = ifs['inner'][1]
-        events = []
-        for e in walk(thenb):
-            if e.get('kind') == 'CallExpr':
-                nm = callee_name(e)
-                if nm in LOCK and ('mutex' in render(e) or nm != 'pthread_mutex_lock'):
-                    events.append(('lock', line_of(e)))
-                elif nm in UNLOCK and ('mutex' in render(e) or nm != 'pthread_mutex_unlock'):
-                    events.append(('unlock', line_of(e)))
-                elif nm is None and 'key_callback' in render(e['inner'][0]):
-                    events.append(('callback', line_of(e)))
-                elif nm and nm.startswith('reb_') and any(render(a) == 'r' for a in call_args(e)) and nm not in ('reb_simulation_warning', 'reb_simulation_error'):
-                    events.append(('uses-r:' + nm, line_of(e)))
-            elif e.get('kind') == 'ReturnStmt' or e.get('kind') == 'ContinueStmt' or e.get('kind') == 'BreakStmt':
-                # only jumps that leave the handler matter; breaks inside the key switch are harmless (outside the region)
-                events.append((e['kind'], line_of(e)))
-            elif e.get('kind') == 'GotoStmt':
-                events.append(('goto', line_of(e)))
-            elif e.get('kind') == 'LabelStmt':
-                events.append(('label', line_of(e)))
+        events = events_of(thenb)
         if not any(ev[0] in ('lock', 'callback') or ev[0].startswith('uses-r') for ev in events):
             continue
         n += 1
-        events.sort(key=lambda ev: ev[1] or 0)
         held = False
         uri = re.search(r'"(/[^"]*)"', c)
         uri = uri.group(1) if uri else c[:30]
         where = 'src/server.c reb_server_start (handler %s)' % uri
         label_line = [ev[1] for ev in events if ev[0] == 'label']
+        entry = []          # mutex state at the entry of each split-off function being followed
         for ev, line in events:
-            if ev == 'lock':
+            if ev.startswith('enter:'):
+                entry.append(held)
+            elif ev.startswith('exit:'):
+                entry.pop()
+            elif ev == 'lock':
                 held = True
             elif ev == 'unlock':
                 if not held:
@@ -276,7 +298,8 @@ def rule_lock_discipline(ctx):
                 if not held:
                     ctx.report('R19.3', 'server:%s:%s' % (uri, ev), where,
                                'line %s hands the live simulation to %s without holding the mutex the integration loop holds during a step: the client can see (or the callback can change) a state in the middle of a step' % (line, ev))
-            elif ev in ('ReturnStmt', 'ContinueStmt') and held:
+            elif ev in ('ReturnStmt', 'ContinueStmt') and held and not (entry and entry[-1]):
+                # a return inside a split-off function entered with the mutex held goes back to the caller, which releases it
                 ctx.report('R19.3', 'server:%s:leak' % uri, where, 'line %s leaves the handler while the mutex is held' % line)
             elif ev == 'goto' and held:
                 # must target a label that is followed by the unlock
